@@ -92,6 +92,7 @@ type Interp struct {
 	jsonBlobs map[*Backing]*jsonBlob
 	blobList  []*jsonBlob
 	syncMaps  map[string]*MapV
+	hashRecs  []hashRec
 	panicVal  Value
 	recovered bool
 	panicking bool
